@@ -66,6 +66,21 @@ fn small_call_sets() -> Vec<(&'static str, CallSet)> {
     d.records[7].chrom = 1;
     d.push_gts(&["0|1", "1/1", "1|0"]);
     out.push(("unusual-records-3-samples", d));
+    // (f) the call data of (b) under a header with 140 further INFO definitions in front of GT (its
+    // dictionary index no longer fits one byte in BCF) and with a stale `AN=0` on the decorated records
+    let mut f = out[1].1.clone();
+    f.extra_info_defs = 140;
+    f.stale_an = true;
+    // neighbouring records that differ only in the last allele of the last sample
+    for k in [3usize, 9, 14, 20] {
+        let mut gts = f.records[k].gts.clone();
+        let last = gts.len() - 1;
+        gts[last] = "0/0".to_string();
+        f.records[k].gts = gts.clone();
+        gts[last] = "0/1".to_string();
+        f.records[k + 1].gts = gts;
+    }
+    out.push(("annotated-140-info-definitions", f));
     // (e) wide and long names: 300 samples (more than 255), 300 contigs, a sample name and a contig
     // name of 300 bytes, positions beyond 2^31 are not legal VCF, so up to 2^31 - 1
     let mut e = CallSet::new(300);
@@ -316,13 +331,12 @@ pub fn run(tier: Tier) -> i32 {
     for (si, outs) in canon.iter().enumerate() {
         for (config, o) in outs.iter().enumerate() {
             // a strict run fails on a call set with skipped sites; every variant must then fail alike
+            // a canonical run may fail (a strict run on a call set with skipped sites; a list with a
+            // repeated entry; or a subject that refuses this container): every variant must then fail
+            // alike - the canonical run is one of the runs under comparison, not an oracle
             let strict = config == 2 || config == 5 || config == 8;
-            if strict && !o.ok() && o.stdout.is_empty() && o.diagnosed_error() {
-                continue;
-            }
-            if !o.ok() {
-                eprintln!("ENGINE: canonical run for {} failed: {} {}", sets[si].0, o.status_str(), o.stderr_str());
-                return 2;
+            if !o.ok() && !strict {
+                eprintln!("note: the canonical run (plain VCF by path, one thread) for {} with option set {config} fails: {} {}", sets[si].0, o.status_str(), o.stderr_str().lines().last().unwrap_or(""));
             }
         }
     }
